@@ -62,6 +62,14 @@ def batches(tier):
             dict(name="latefail", runs=900, budget_s=15, per_run_timeout=60)]
 
 
+def vacuous(stats, probes):
+    ok, bad = probes.get("valid_input_accepted", 0), probes.get("valid_input_rejected", 0)
+    if ok + bad >= 20 and ok < 0.5 * (ok + bad):
+        return ("%d of %d uncorrupted generated inputs are rejected: 'accepted' runs are too few for the token "
+                "accounting to mean anything" % (bad, ok + bad))
+    return None
+
+
 def describe():
     return {
         "rule": "a valid interface file (or 1-3 files for the MATLAB entry points, with tape-chosen final "
